@@ -103,6 +103,8 @@ def typed_cards(deck, expand_like=False, shorthand=None):
         data.append(card)
     for extra in deck.extra_data:
         data.append([(a, 'id') for a in extra])
+    for extra in getattr(deck, 'unrelated_data', ()):
+        data.append([(a, 'id') for a in extra])
     if getattr(deck, 'data_shuffle', None) is not None:
         # the same order of the data cards as model.deck_cards (the order of
         # the material cards decides the order of the compositions)
